@@ -115,10 +115,15 @@ PYTIE = {
  'C01': ('find_kmers, KmerMatch.kmer_indices', 'find_kmers_eq, kmer_indices_fwd/rev, py_find_kmers_complete'),
  'C03': ('matching_taxon, GenomeMatch.next_taxon, classify, reportable_taxon, get_result_item',
          'matching_taxon_eq, next_taxon_eq, classify_default_eq, reportable_taxon_eq, get_result_item_eq, py_matching_spec, py_next_spec, py_coarsen_mono, py_classify_default_ok'),
- 'C05': ('chunk_slices', 'chunk_slices_eq/_bad/_neg, py_chunks_partition'),
+ 'C02': ('_cast_sigs_array, jaccard, jaccarddist (the Python wrappers of the kernels)', 'cast_sigs_array_eq, jaccarddist_eq, jaccard_eq, jaccarddist_bad, py_jaccarddist_correctly_rounded'),
+ 'C04': ('_check_genomes_have_ids, _map_ids_to_genomes, genomes_by_id, genomes_by_id_subset, ReferenceDatabase.__init__', 'genomes_by_id_subset_eq, refdb_init_eq, py_refdb_pairing'),
+ 'C05': ('chunk_slices, jaccarddist_array, jaccarddist_matrix, jaccarddist_pairwise', 'chunk_slices_eq/_bad/_neg, py_chunks_partition and the PyBulk / PyPairwise theorems listed in DESIGN §9.1'),
+ 'C13': ('calc_file_signatures', 'calc_files_executor_eq, calc_files_pool_eq, calc_files_sequential_eq, calc_files_bad_concurrency, py_calc_files_any_order'),
+ 'C15': ('_cast_sigs_array, jaccard, jaccarddist', 'jaccarddist_eq, py_width_irrelevant'),
+ 'C18': ('ReadOnlySession, its before_commit listener, file_sessionmaker (structure)', 'session_structural_facts'),
  'C06': ('find_kmers', 'find_kmers_eq'),
  'C07': ('kmer_to_index, kmer_to_index_rc, index_dtype, nkmers', 'kmer_to_index_eq, kmer_to_index_rc_eq, index_dtype_eq, nkmers_eq'),
- 'C08': ('strip_extensions, strip_seq_file_ext, get_file_id', 'strip_extensions_eq, strip_seq_file_ext_eq, get_file_id_eq/_nostrip/_noext'),
+ 'C08': ('strip_extensions, strip_seq_file_ext, get_file_id, calc_file_signatures', 'strip_extensions_eq, strip_seq_file_ext_eq, get_file_id_eq/_nostrip/_noext, calc_files_sequential_eq, calc_files_pool_eq'),
  'C09': ('classify, get_result_item', 'classify_default_eq, classify_strict_eq, get_result_item_eq, get_result_item_head, py_closest_ok'),
  'C10': ('find_matches, consensus_taxon, classify', 'find_matches_eq, consensus_taxon_eq, classify_strict_eq, py_consensus_perm, py_classify_strict_ok'),
  'C12': ('the storage calls of dump_signatures_hdf5 / HDF5Signatures.create / _init_attrs / write_metadata / _init_datasets, the loader\'s checks',
